@@ -58,21 +58,22 @@ class MQueue(Model):
         return not self._q
 
 
-def m_deque(it=()):
-    return MDeque(it)
+m_deque = __import__("collections").deque  # pure data: CPython's own class (maxlen, rotate, appendleft ...)
 
 
 m_counter = __import__("collections").Counter  # pure data: CPython's own class (a missing key counts 0, subtract / most_common / elements / total)
 
 
-def m_defaultdict(factory):
+def m_defaultdict(factory=None, *args, **kwargs):
     class DD(dict):
         def __missing__(self, k):
+            if factory is None:
+                raise ModelRaise("KeyError", repr(k))
             v = factory()
             self[k] = v
             return v
 
-    return DD()
+    return DD(*args, **kwargs)
 
 
 _STDLIB = None
@@ -454,11 +455,76 @@ class MFunctools(Model):
     reduce = staticmethod(functools.reduce)
 
 
-def bind_with_decorators(fdef, clo, obj):
+def _type_matches(x, ty):
+    from .userclass import UserClass, is_instance_of
+
+    if isinstance(ty, UserClass):
+        return is_instance_of(x, ty)
+    return isinstance(ty, type) and isinstance(x, ty) and not (ty is int and isinstance(x, bool))
+
+
+def _annotation_types(ann, ev):
+    """Classes named by an annotation `A`, `A | B`, `Union[A, B]`, `Optional[A]`."""
+    parts, stack = [], [ann]
+    while stack:
+        x = stack.pop()
+        if isinstance(x, ast.BinOp) and isinstance(x.op, ast.BitOr):
+            stack += [x.right, x.left]
+        elif isinstance(x, ast.Subscript) and ast.unparse(x.value).split(".")[-1] in ("Union", "Optional"):
+            stack += list(x.slice.elts) if isinstance(x.slice, ast.Tuple) else [x.slice]
+        else:
+            parts.append(x)
+    out = []
+    for x in parts:
+        out.append(type(None) if isinstance(x, ast.Constant) and x.value is None else ev(x))
+    return out
+
+
+def _dispatch_method(fdef, clo, obj, ctx=None):
+    """functools.singledispatchmethod on a method of a repository class: the implementations are the methods of the class decorated
+    `@<name>.register` (class from the decorator argument or from the annotation of the first parameter after self)."""
+    if ctx is not None:
+        pkg, rel, cls = ctx
+    else:
+        d = object.__getattribute__(obj, "__dict__")
+        pkg, rel, cls = d["_ri_pkg"], d["_ri_rel"], d["_ri_cls"]
+    from .minieval import MiniEval
+
+    ev = MiniEval(pkg.env(rel)).ev
+    impls = []
+    for (r, q), fi in pkg.repo.funcs.items():
+        if r != rel or not q.startswith(cls + ".") or q.count(".") != 1:
+            continue
+        for dec in fi.node.decorator_list:
+            target = dec.func if isinstance(dec, ast.Call) else dec
+            if isinstance(target, ast.Attribute) and target.attr == "register" and isinstance(target.value, ast.Name) and target.value.id == fdef.name:
+                if isinstance(dec, ast.Call) and dec.args:
+                    types = [ev(dec.args[0])]
+                else:
+                    params = fi.node.args.posonlyargs + fi.node.args.args
+                    if len(params) < 2 or params[1].annotation is None:
+                        raise Unsupported(f"{q}: register without a class")
+                    types = _annotation_types(params[1].annotation, ev)
+                for ty in types:
+                    impls.append((ty, q))
+
+    def dispatch(*a, **k):
+        x = a[0] if a else None
+        for ty, q in reversed(impls):
+            if _type_matches(x, ty):
+                return pkg.method_closure(rel, q)(obj, *a, **k)
+        return clo(obj, *a, **k)
+
+    return dispatch
+
+
+def bind_with_decorators(fdef, clo, obj, ctx=None):
     decs = {ast.unparse(d).split(".")[-1].split("(")[0] for d in fdef.decorator_list}
-    unknown = decs - {"staticmethod", "classmethod", "property", "lru_cache", "cache", "cached_property", "wraps", "contextmanager"}
+    unknown = decs - {"staticmethod", "classmethod", "property", "lru_cache", "cache", "cached_property", "wraps", "contextmanager", "singledispatchmethod", "register", "abstractmethod", "override", "final"}
     if unknown:
         raise Unsupported(f"decorator(s) {sorted(unknown)} on {fdef.name}")
+    if "singledispatchmethod" in decs:
+        return _dispatch_method(fdef, clo, obj, ctx)
     if "contextmanager" in decs:
         if "staticmethod" in decs:
             return lambda *a, **k: MContextManager(clo(*a, **k))
@@ -553,6 +619,24 @@ class RepoInstance(Model):
             return ms[name]
         key = (rel, f"{cls}.{name}")
         if key not in pkg.repo.funcs:
+            # a class-level assignment: `and_gate = partialmethod(_operator_gate, "and", 2)` (a method made from another one), or a
+            # class attribute holding a constant / table
+            cdef = pkg.repo.classes.get((rel, cls))
+            for st in (cdef.body if cdef is not None else ()):
+                tgt = st.targets[0] if isinstance(st, ast.Assign) and len(st.targets) == 1 else st.target if isinstance(st, ast.AnnAssign) and st.value is not None else None
+                if not (isinstance(tgt, ast.Name) and tgt.id == name):
+                    continue
+                from .minieval import MiniEval
+
+                v = st.value
+                ev = MiniEval(pkg.env(rel)).ev
+                if isinstance(v, ast.Call) and ast.unparse(v.func).split(".")[-1] == "partialmethod" and v.args and isinstance(v.args[0], ast.Name) and (rel, f"{cls}.{v.args[0].id}") in pkg.repo.funcs:
+                    inner = self.__getattr__(v.args[0].id)
+                    pre = [ev(a) for a in v.args[1:]]
+                    prek = {k.arg: ev(k.value) for k in v.keywords if k.arg}
+                    ms[name] = (lambda inner_, pre_, prek_: (lambda *a, **k: inner_(*pre_, *a, **{**prek_, **k})))(inner, pre, prek)
+                    return ms[name]
+                return ev(v)
             raise AttributeError(name)
         clo = pkg.method_closure(rel, f"{cls}.{name}")
         bound = bind_with_decorators(pkg.repo.funcs[key].node, clo, self)
@@ -658,7 +742,7 @@ class Package:
             return None
         fi = self.repo.funcs[("circuit.py", f"{cls}.{name}")]
         clo = self.method_closure("circuit.py", f"{cls}.{name}")
-        bound = bind_with_decorators(fi.node, clo, obj)
+        bound = bind_with_decorators(fi.node, clo, obj, ctx=(self, "circuit.py", cls))
         return bound() if getattr(bound, "_is_property", False) else bound
 
     # ---- the `cg` namespace -------------------------------------------
@@ -740,13 +824,19 @@ class Package:
         bind_module_constants(tree, env)
         for st, rel_ in self._pending_decorators:
             env[st.name] = apply_decorators(st, own[id(st)], bi.me.ev)
-        # a class may use module constants as defaults / class attributes and vice versa: second pass for late ones
-        for st in tree.body:
-            if isinstance(st, ast.ClassDef) and st.name not in env:
-                try:
-                    env[st.name] = build_class(st, bi)
-                except Unsupported:
-                    pass
+        # a class may use module constants as defaults / class attributes and vice versa: further passes for late ones, until
+        # nothing new gets bound
+        for _ in range(4):
+            before_n = len(env)
+            for st in tree.body:
+                if isinstance(st, ast.ClassDef) and st.name not in env:
+                    try:
+                        env[st.name] = build_class(st, bi)
+                    except Unsupported:
+                        pass
+            bind_module_constants(tree, env)
+            if len(env) == before_n:
+                break
         self._bi = bi
         return env
 
